@@ -174,10 +174,14 @@ def replay (j : Json) : R Verdict := do
   let mut allStarts : List ObsStart := []
   let mut retFinal : Json := Json.null
   let mut rn := 0
+  let mut prevInflight := 0
+  let mut accCount : List (Nat × Nat) := []     -- accepted results so far per individual in flight / in the population
+  let mut targetRound : Option Nat := none      -- round in which a completed sample first reached the target
   for rd in rounds do
     match rd.getObjVal? "obs" with
     | .error _ => pure ()
     | .ok obs =>
+      let hadStop := stopRound.isSome
       let starts := ((fieldD obs "starts").getArr?.toOption.getD #[]).toList.filterMap (fun x => (parseStart x).toOption)
       let items := ((fieldD obs "items").getArr?.toOption.getD #[]).toList.filterMap (fun x => (parseItem x).toOption)
       let evs := ((fieldD rd "events").getArr?.toOption.getD #[]).toList.filterMap (fun x => (parseEv x).toOption)
@@ -196,9 +200,55 @@ def replay (j : Json) : R Verdict := do
           pf := ("C04", s!"round {rn}: {starts.length} evaluation(s) started after a termination request or failure was taken (round {k})") :: pf
           if firstFail.isSome then pf := ("C06", s!"round {rn}: evaluation started after a failure") :: pf
       | none => pure ()
+      -- the round in which the first termination request / failure is taken: evaluations that were in flight at that
+      -- moment must be told to abort (the abort broadcast is observable through a receiver clone)
+      if !hadStop && stopRound == some rn then
+        let nCompl := (evs.filter (fun | .complete .. => true | .abort => false)).length
+        let siblings := prevInflight - nCompl
+        if siblings > 0 && (fieldD obs "abort").getBool?.toOption == some false then
+          if firstFail.isSome then
+            pf := ("C06", s!"round {rn}: an evaluation failed with {siblings} other evaluation(s) in flight and they were not told to abort") :: pf
+          else
+            pf := ("C04", s!"round {rn}: a termination request was taken with {siblings} evaluation(s) in flight and they were not told to abort") :: pf
+      prevInflight := (fieldD obs "inflight").getNat?.toOption.getD 0
       allItems := allItems ++ items
       allStarts := allStarts ++ starts
       if !(fieldD obs "ret").isNull then retFinal := fieldD obs "ret"
+      -- C04 (target): per individual the accepted results in processing order; a sample is complete after
+      -- sample-size results and its summary is the mean the implementation computed (`acc: [x, mean]`)
+      for e in evs do
+        match e with
+        | .complete sd (.acc _ m) =>
+          match items.find? (fun (_, isd, _) => isd == sd) with
+          | some (iid, _, _) =>
+            let cnt := (accCount.find? (·.1 == iid)).map (·.2) |>.getD 0
+            accCount := (iid, cnt + 1) :: accCount.filter (·.1 != iid)
+            if cnt + 1 == ss then
+              match cfg.target with
+              | some t => if F64.le (.fin m) t && targetRound.isNone then targetRound := some rn
+              | none => pure ()
+          | none => pure ()
+        | .complete sd .rej =>
+          match items.find? (fun (_, isd, _) => isd == sd) with
+          | some (iid, _, _) => accCount := accCount.filter (·.1 != iid)
+          | none => pure ()
+        | _ => pure ()
+      match targetRound with
+      | some k =>
+        if rn == k && retFinal.isNull then
+          pf := ("C04", s!"round {rn}: a completed sample brought the best-seen objective to or below the target but the run did not return") :: pf
+        if rn > k && !starts.isEmpty then
+          pf := ("C04", s!"round {rn}: evaluation started after the target had been reached (round {k})") :: pf
+      | none => pure ()
+      -- C05 (work conservation): while the run is neither stopping nor returned, exactly
+      -- min(num_concurrent, remaining budget) evaluations are in progress after every round
+      if stopRound.isNone && retFinal.isNull && targetRound.isNone then
+        let completed := allItems.length
+        let want := match cfg.maxEval with | some n => Nat.min cfg.nc (n - completed) | none => cfg.nc
+        match (fieldD obs "inflight").getNat?.toOption with
+        | some have_ => if have_ != want then
+            pf := ("C05", s!"round {rn}: {have_} evaluation(s) in progress, expected min(num_concurrent {cfg.nc}, remaining budget) = {want}") :: pf
+        | none => pure ()
     rn := rn + 1
   let accItems := allItems.filterMap (fun (i, sd, x) => x.map (fun v => (v, i, sd)))
   let nRej := (allItems.filter (fun (_, _, x) => x.isNone)).length
@@ -208,6 +258,15 @@ def replay (j : Json) : R Verdict := do
     if !retFinal.isNull && retFinal.compress != (Json.mkObj [("err", k)]).compress then
       pf := ("C06", s!"first failure had code {k} but the run returned {retFinal.compress}") :: pf
   | none => pure ()
+  -- C03 (exact use of the budget): no termination request, no failure, target not reached, the run returned a report
+  match cfg.maxEval, retFinal.getObjVal? "ok" with
+  | some n, .ok okj =>
+    if stopRound.isNone && targetRound.isNone then
+      let a := (fieldD okj "acc").getNat?.toOption.getD 0
+      let rj := (fieldD okj "rej").getNat?.toOption.getD 0
+      if allStarts.length != n || a + rj != n then
+        pf := ("C03", s!"budget {n}, nothing else ended the run, but {allStarts.length} evaluations were started and the report counts {a} completed + {rj} rejected") :: pf
+  | _, _ => pure ()
   -- C14 / C02 / C04 on a success report
   match retFinal.getObjVal? "ok" with
   | .ok okj =>
@@ -257,6 +316,7 @@ def replay (j : Json) : R Verdict := do
     | [], some (_, w) => w
     | [], none => ""
   return { case, kind, props := (pf.map (·.1)).eraseDups, what, tags := r.tags, size := r.nEvents,
+           dis := (match r.verdict with | some ("DISAGREE", w) => w | _ => ""),
            fails := pf.map (fun (p, w) => p ++ ": " ++ w) }
 
 end Driver.CtlReplay
